@@ -11,6 +11,17 @@ from engine.hlib import Native, V, pick
 KEYSETS = [("a", "b", "c"), ("b", "a", "aa"), ("\U0001F600", "דּ", "a"), ("€", "$", "\u0080"), ("k\"q", "k\\", "k\n")]
 PERMS = [(0, 1, 2), (0, 2, 1), (1, 0, 2), (1, 2, 0), (2, 0, 1), (2, 1, 0)]
 INTS = [7, 0, -1, 1000000]
+# doubles whose ECMAScript form differs from Python's repr (known answers: RFC 8785 appendix B / ECMA-262 Number::toString); None = must be refused
+FLOATS = [(1.0, "1"), (-0.0, "0"), (1e-7, "1e-7"), (1e16, "10000000000000000"), (1.5, "1.5"), (1e21, "1e+21"), (5e-324, "5e-324"), (0.000001, "0.000001"),
+          (float("nan"), None), (float("-inf"), None), (float("inf"), None), (1.152921504606847e18, "1152921504606847000"), (-1e-5, "-0.00001"),
+          (123456789012345680000.0, "123456789012345680000"), (-float("nan"), None)]
+NF = len(FLOATS)
+
+
+class Refused(Exception):
+    pass
+
+
 STRS = ["ab", "", "q\"\\\n\x01\u007f \U0001F600"]
 
 
@@ -44,6 +55,13 @@ def ref_ser(v):
         return "false"
     if isinstance(v, int):
         return str(v)
+    if isinstance(v, float):
+        for f, text in FLOATS:
+            if repr(f) == repr(v):
+                if text is None:
+                    raise Refused()
+                return text
+        raise AssertionError("float outside the known-answer table")
     if isinstance(v, str):
         return ref_str(v)
     if isinstance(v, list):
@@ -59,6 +77,8 @@ def leaf(kind, b, i):
         return b
     if kind == 2:
         return STRS[i % len(STRS)]
+    if kind == 4:
+        return FLOATS[i % NF][0]
     return INTS[i % len(INTS)]
 
 
@@ -100,12 +120,12 @@ QUICK = TIER == "quick"
 def struct(k1: int, b1: bool, k2: int, b2: bool, k3: int, b3: bool, perm: int, shape: int, ks: int) -> bool:
     """
     pre: 0 <= shape <= 3 and 0 <= ks < 5 and shape * 5 + ks == PARTNO
-    pre: 0 <= k1 <= 3 and 0 <= k2 <= 3 and 0 <= k3 <= 3 and 0 <= perm < 6
-    pre: (not QUICK) or k3 == (k1 + k2 + 1) % 4
+    pre: 0 <= k1 <= 4 and 0 <= k2 <= 4 and 0 <= k3 <= 4 and 0 <= perm < 6
+    pre: (not QUICK) or k3 == (k1 + k2 + 1) % 5
     post: _
     """
     shape, ks, perm = pick(shape, 4), pick(ks, 5), pick(perm, 6)
-    k1, k2, k3 = pick(k1, 4), pick(k2, 4), pick(k3, 4)
+    k1, k2, k3 = pick(k1, 5), pick(k2, 5), pick(k3, 5)
     b1 = pickb(b1) if k1 == 1 else False
     b2 = pickb(b2) if k2 == 1 else False
     b3 = pickb(b3) if k3 == 1 else False
@@ -118,12 +138,23 @@ def struct(k1: int, b1: bool, k2: int, b2: bool, k3: int, b3: bool, perm: int, s
 def run_case(shape, ks, perm, k1, b1, k2, b2, k3, b3):
     """all-concrete: the real pure-Python encoder vs the independent serializer, two insertion orders, parse-back fixed point"""
     li = (shape + ks) % 4
-    a, b, c = leaf(k1, b1, li), leaf(k2, b2, li + 1), leaf(k3, b3, li + 2)
+    fi = li + perm * 2 + k1                    # floats rotate through the whole table
+    a, b, c = leaf(k1, b1, fi if k1 == 4 else li), leaf(k2, b2, fi + 5 if k2 == 4 else li + 1), leaf(k3, b3, fi + 9 if k3 == 4 else li + 2)
     K = KEYSETS[ks]
     v = build(shape, K, perm, a, b, c)
+    try:
+        want = ref_ser(plain(v))
+    except Refused:
+        # a non-finite number at any position: the encoder and canonicalize() must refuse
+        for f in (lambda: encode(v), lambda: C.canonicalize(plain(v), utf8=False)):
+            try:
+                f()
+                return False
+            except ValueError:
+                pass
+        return True
     out = encode(v)
     out2 = encode(build(shape, K, (perm + 1) % 6, a, b, c))
-    want = ref_ser(plain(v))
     if out != want or out2 != want:
         return False
     if any(ch in out for ch in " \t") and not any(isinstance(x, str) and (" " in x) for x in (a, b, c)):
